@@ -103,7 +103,7 @@ var drainTurn int
 // drainExpect: "fault" means exactly the error value the source was given.  How a caller consumes the
 // returned stream must not matter, so the way of draining rotates from call to call: 512-byte reads,
 // a few single-byte reads followed by io.Copy (which uses the stream's WriteTo when it has one),
-// io.Copy from the start, one large buffer, io.ReadAll, and a bufio.Reader on top.
+// io.Copy from the start, one large buffer, io.ReadAll, a bufio.Reader on top, and zero-length reads in between.
 func drainExpect(r io.Reader, limit int, fault error) (data []byte, end string) {
 	classify := func(err error) string {
 		switch {
@@ -118,9 +118,26 @@ func drainExpect(r io.Reader, limit int, fault error) (data []byte, end string) 
 		}
 	}
 	drainTurn++
-	mode := drainTurn % 7
+	mode := drainTurn % 8
 	size := 512
 	switch mode {
+	case 7:
+		// empty reads among the others (a caller polling with a zero-length buffer): they must return (0, nil)
+		// — or the stream's terminal error once everything has been delivered — and lose nothing
+		if n, err := r.Read(nil); n != 0 || (err != nil && err != io.EOF && err != fault) {
+			return data, fmt.Sprintf("other:zero-length read returned (%d, %v)", n, err)
+		}
+		b16 := make([]byte, 16)
+		n, err := r.Read(b16)
+		data = append(data, b16[:n]...)
+		if err != nil {
+			return data, classify(err)
+		}
+		if n, err := r.Read(b16[:0]); n != 0 || (err != nil && err != io.EOF && err != fault) {
+			return data, fmt.Sprintf("other:zero-length read returned (%d, %v)", n, err)
+		}
+		rest, err := io.ReadAll(r)
+		return append(data, rest...), classify(err)
 	case 1, 2, 5:
 		if mode == 1 {
 			one := make([]byte, 1)
